@@ -876,6 +876,12 @@ def crc_facts(facts, root, positive=True):
                 if e is None or e[1] is None:
                     continue
                 lq = linearize(q)
+                if not (lq.c == 0 and len(lq.co) == 1 and next(iter(lq.co)).k == "unpacked"):
+                    # octets of the trailer seen through a slice: the octets of the buffer, then one big-endian word
+                    try:
+                        lq = linearize(simplify(simplify(q, facts), facts))
+                    except Exception:  # noqa: BLE001
+                        pass
                 if lq.c == 0 and len(lq.co) == 1:
                     (at_, cf_), = lq.co.items()
                     if cf_ == 1 and at_.k == "unpacked" and at_.a[0].lstrip("!>") == "H" and at_.a[1].k == "slice" and at_.a[1].a[0].k == "sym" \
